@@ -114,7 +114,7 @@ PLANS["C16"] = coll("C16", 400, 10000, ["split", "merge_ok", "merge_rejected", "
 PLANS["C17"] = dict(
     level="exploration",
     need=["pair:dyn", "pair:try_vs_panicking", "pair:inherent_vs_trait", "req:IterMutRev", "req:Reserve", "req:Raw", "req:TypedLayout", "req:CStrFmtMut", "req:SliceFillWith",
-          "req:VecSession", "req:MutVecSession", "req:CheckpointReset", "req:TryWith", "state:scope_left_later_chunks"],
+          "req:VecSession", "req:MutVecSession", "req:CheckpointReset", "req:TryWith", "req:RawSession", "state:scope_left_later_chunks"],
     rule="evaluations = lock-step histories: two arenas in identical states (congruent chunk addresses through MonAlloc) execute each generated request through two different, randomly paired entry points "
          "(inherent Bump / BumpScope forwarders, trait impls on BumpScope, &Bump, &BumpScope, WithoutDealloc, WithoutShrink, dyn, each panicking and try_); non-trivial = at least one request returned a block; distinct by (configuration, request list)",
     quick=[("dbg", "lockstep", [], 16, ["--histories", "300"]), ("rel", "lockstep", [], 16, ["--histories", "900"]), ("miri", "lockstep", ["--ops", "40"], 8, ["--histories", "2"])],
